@@ -46,9 +46,10 @@ type Rule struct {
 // Ctx is the per-rule evaluation context.
 type Ctx struct {
 	*Prog
-	F    *Facts
-	rule *Rule
-	obs  []Obligation
+	F      *Facts
+	rule   *Rule
+	obs    []Obligation
+	emMemo []*Emission
 }
 
 func (c *Ctx) add(v Verdict, fn, construct, pos, why string, path ...string) {
